@@ -41,7 +41,7 @@ func init() {
 		NotDecided: "exactness of the sweep as a value; idempotence of a second pass; empty-repository removal semantics (its safety is under C10).",
 	})
 	registerProperty(&Property{ID: "C07", DesignRef: "DESIGN.md §4 C07, §3.3",
-		Rules:      []string{"TS-REFERRER-CALL", "TS-REFDEL", "SH-SIBLING-REF", "TS-PAGE", "TS-FILTER-HDR", "PV-CACHEKEY", "TS-REFDESC", "LK-RMW", "TS-HASHBYTES#referrer", "TS-CONTENT-FIRST#referrer", "TS-STORED-THEN-INDEXED#referrer", "SH-SWAP-REMOVE", "TS-REFRESP-FLOW", "SH-GROUP-KEY"},
+		Rules:      []string{"TS-REFERRER-CALL", "TS-REFDEL", "SH-SIBLING-REF", "TS-PAGE", "TS-FILTER-HDR", "PV-CACHEKEY", "TS-REFDESC", "LK-RMW", "TS-HASHBYTES#referrer", "TS-CONTENT-FIRST#referrer", "TS-STORED-THEN-INDEXED#referrer", "SH-SWAP-REMOVE", "TS-REFRESP-FLOW", "SH-GROUP-KEY", "TS-LIMIT-AGREE"},
 		Technique:  techPath + "; sibling agreement; lock analysis for the read-modify-write",
 		Decided:    "the referrers update is called on every push path with a subject, for both manifest kinds, before the 201, and before the index removal on delete — only when the manifest itself is removed; all builders of a referrers entry fill the same fields (config fallback for images); pages respect the limit; filtered answers announce the filter on every path; the response's read-modify-write runs under one mutex.",
 		NotDecided: "exactness of the list contents after arbitrary histories; filter semantics; union of pages.",
